@@ -54,9 +54,9 @@ def tlc_plan(tier):
     boo("xtal check", "xtal", "x", False, 1, 2 if q else 6)
     boo("xtal gen", "xtal", "x", True, 1, 2 if q else 6)
     boo("cfg exact check", "cfg", "exact", False, 1, 8 if q else 16)
-    boo("cfg exact gen", "cfg", "exact", True, 900 if q else 150, 4 if q else 12)
+    boo("cfg exact gen", "cfg", "exact", True, 700 if q else 150, 4 if q else 12)
     boo("cfg generic check", "cfg", "generic", False, 1, 6 if q else 12)
-    boo("cfg generic gen", "cfg", "generic", True, 2600 if q else 130, 6 if q else 16)
+    boo("cfg generic gen", "cfg", "generic", True, 2500 if q else 130, 6 if q else 16)
     return jobs
 
 
@@ -126,10 +126,60 @@ def render(case, te, tmp, scale, wmul, lib):
 # one case: expected terms vs the real boo_3d
 # --------------------------------------------------------------------------
 
+class Recorder:
+    """Collects the verdicts of one replayed case (same interface as common.Check); merged by the parent."""
+
+    def __init__(self):
+        self.oks, self.ties, self.violations, self.extra = [], 0, [], {}
+
+    def ok(self, key=None, nontrivial=True, sample=None):
+        self.oks.append((key, nontrivial, sample))
+
+    def tie(self):
+        self.ties += 1
+
+    def violation(self, clause, case, finding_key=None):
+        self.violations.append((clause, case, finding_key))
+
+    def merge_into(self, chk):
+        for key, nontrivial, sample in self.oks:
+            chk.ok(key, nontrivial=nontrivial, sample=sample)
+        for _ in range(self.ties):
+            chk.tie()
+        for clause, case, fk in self.violations:
+            chk.violation(clause, case, finding_key=fk)
+        for k, v in self.extra.items():
+            if isinstance(v, int):
+                chk.extra[k] = chk.extra.get(k, 0) + v
+            else:
+                chk.extra.setdefault(k, []).extend(v)
+
+
 class Ctx:
     def __init__(self, chk, lib, w3j, tier):
         self.chk, self.lib, self.w3j, self.tier = chk, lib, w3j, tier
         self.counter = 0
+
+
+_WORKER = {}
+
+
+def _worker_init(tier):
+    rec = Recorder()
+    lib = load_library(rec)
+    _WORKER["lib"], _WORKER["tier"], _WORKER["import_failure"] = lib, tier, rec.violations
+
+
+def _worker_replay(args):
+    case, origin, w3j_l, ordinal = args
+    rec = Recorder()
+    if _WORKER["lib"] is None:
+        rec.violations = list(_WORKER["import_failure"])
+        return rec
+    ctx = Ctx(rec, _WORKER["lib"], {case["l"]: w3j_l}, _WORKER["tier"])
+    ctx.counter = ordinal - 1
+    replay_case(ctx, case, origin)
+    return rec
 
 
 def _cval(te, v):
@@ -186,6 +236,9 @@ def replay_case(ctx, case, origin):
     try:
         snaps, nfile, wfile, ppp, nmax = render(case, te, tmp, scale, wmul, lib)
         ident["scale"] = scale
+        ident["input"] = {"hmatrix": snaps.snapshots[0].hmatrix.tolist(), "timesteps": [int(t) for t in case["ts"]],
+                          "positions": [sn.positions.tolist() for sn in snaps.snapshots],
+                          "neighbor_file": open(nfile).read(), "weight_file": open(wfile).read() if wfile else None}
         violated = _replay_rendered(ctx, case, ident, te, env, snaps, nfile, wfile, ppp, nmax, withw, tmp)
     finally:
         shutil.rmtree(tmp, ignore_errors=True)
@@ -210,7 +263,12 @@ def _replay_rendered(ctx, case, ident, te, env, snaps, nfile, wfile, ppp, nmax, 
         return True
 
     try:
-        b = boo_3d(snaps, l, nfile, wfile, ppp=ppp, Nmax=nmax)
+        kw = {}
+        if not (list(ppp) == [1, 1, 1] and ctx.counter % 2):       # every other fully periodic case relies on the default mask
+            kw["ppp"] = ppp
+        if not (nmax == 30 and ctx.counter % 3 == 0):              # ... and on the default Nmax
+            kw["Nmax"] = nmax
+        b = boo_3d(snaps, l, nfile, wfile, **kw)
         qlm, Qlm = np.asarray(b.smallqlm), np.asarray(b.largeQlm)
     except Exception as e:  # noqa
         return viol(f"raises:{type(e).__name__}", where="boo_3d()", error=str(e)[:200])
@@ -242,9 +300,10 @@ def _replay_rendered(ctx, case, ident, te, env, snaps, nfile, wfile, ppp, nmax, 
                     return viol(f"{name}:sqrt(4pi/(2l+1) sum|q_lm|^2)", frame=f, i=i + 1, expected=e, observed=float(arr[f, i]))
                 if not (-1e-12 <= arr[f, i] <= 1 + 1e-9):
                     return viol("bounds:0<=q_l<=1", frame=f, i=i + 1, observed=float(arr[f, i]))
-            e = float(te.inexact(te.ev(exp[f]["qladd"][i], env)).real)
-            if not abs(ql[f, i] - e) <= 1e-7:     # sqrt of a sum with cancellation: absolute tolerance
-                return viol("ql:addition theorem sum_ab w_a w_b P_l(cos gamma_ab)", frame=f, i=i + 1, expected=e, observed=float(ql[f, i]))
+            e = complex(te.inexact(te.ev(exp[f]["qladd"][i], env)))
+            if not abs(ql[f, i] ** 2 - (e * e).real) <= 1e-9:     # compared as squares: the sum may cancel to ~0
+                return viol("ql:addition theorem sum_ab w_a w_b P_l(cos gamma_ab)", frame=f, i=i + 1,
+                            expected_squared=(e * e).real, observed=float(ql[f, i]))
         ex = case.get("exact", [None] * F)[f] if case.get("exact") else None
         if ex and ex.get("have"):
             for i in range(N):
@@ -319,6 +378,8 @@ def _replay_rendered(ctx, case, ident, te, env, snaps, nfile, wfile, ppp, nmax, 
     # ---- w_l, w^_l
     if withw:
         for coarse, kw, kc, nn in ((False, "w", "wcap", n2), (True, "W", "Wcap", N2)):
+            if coarse and ctx.tier == "quick" and ctx.counter % 2 and case["kind"] == "cfg":
+                continue
             try:
                 w, wc = b.w_W_cap(coarse_graining=coarse)
                 w, wc = np.asarray(w, dtype=float), np.asarray(wc, dtype=float)
@@ -483,7 +544,8 @@ def direction_b(ctx, ntraj):
             rec, c = g
             # the discrete observation: coordination numbers the code reports (third csv column)
             try:
-                b = lib["boo_3d"](c["snaps"], rec["deg"], c["nfile"], c["wfile"], ppp=np.array(rec["ppp"]), Nmax=rec["nmax"])
+                with np.errstate(all="ignore"):
+                    b = lib["boo_3d"](c["snaps"], rec["deg"], c["nfile"], c["wfile"], ppp=np.array(rec["ppp"]), Nmax=rec["nmax"])
                 csv = os.path.join(tmp, "cn.csv")
                 b.sij_ql_Ql(outputqlQl=csv)
                 tab = np.loadtxt(csv, delimiter=",", skiprows=1, ndmin=2)
@@ -529,6 +591,10 @@ def replay_trace_case(ctx, case, c):
         return
     te = TermEval()
     env = define_all(te, case, ctx.w3j)
+    ident["input"] = {"hmatrix": c["snaps"].snapshots[0].hmatrix.tolist(), "timesteps": [int(t) for t in c["ts"]],
+                      "positions": [sn.positions.tolist() for sn in c["snaps"].snapshots],
+                      "neighbor_file": open(c["nfile"]).read(), "weight_file": open(c["wfile"]).read() if c["wfile"] else None}
+    del ident["frames"]
     tmp = common.scratch_dir("verif_c09_")
     try:
         violated = _replay_rendered(ctx, case, ident, te, env, c["snaps"], c["nfile"], c["wfile"], np.array(case["ppp"]),
@@ -584,11 +650,43 @@ def run(tier, replay=None):
 
     if replay:
         rp = common.load_replay(replay)
-        print(json.dumps({k: v for k, v in rp["case"].items() if k != "frames"}, indent=1)[:4000])
-        print("re-run the check to regenerate the expectation for this case (idx identifies the state of MC_Boo3D)")
+        c = rp["case"]
+        print("clause:", rp["clause"])
+        print(json.dumps({k: v for k, v in c.items() if k not in ("input", "frames", "record")}, indent=1))
+        inp = c.get("input")
+        if inp:
+            tmp = common.scratch_dir("verif_c09r_")
+            try:
+                Hm = np.array(inp["hmatrix"])
+                L = np.abs(np.diag(Hm))
+                sn = [lib["SingleSnapshot"](timestep=t, nparticle=len(p), particle_type=np.ones(len(p), dtype=int), positions=np.array(p),
+                                            boxlength=L, boxbounds=np.array([[0.0, x] for x in L]), realbounds=None, hmatrix=Hm)
+                      for t, p in zip(inp["timesteps"], inp["positions"])]
+                nf, wf = os.path.join(tmp, "n.dat"), None
+                open(nf, "w").write(inp["neighbor_file"])
+                if inp["weight_file"]:
+                    wf = os.path.join(tmp, "w.dat")
+                    open(wf, "w").write(inp["weight_file"])
+                b = lib["boo_3d"](lib["Snapshots"](nsnapshots=len(sn), snapshots=sn), c["l"], nf, wf, ppp=np.array(c["ppp"]), Nmax=c["nmax"])
+                print("observed now: q_l =", np.asarray(b.ql_Ql(False)).tolist())
+                print("observed now: Q_l =", np.asarray(b.ql_Ql(True)).tolist())
+                for cc in (0.7, 0.5, 0.0, -0.5):
+                    csv = os.path.join(tmp, "c.csv")
+                    b.sij_ql_Ql(c=cc, outputqlQl=csv)
+                    print(f"observed now: counts(c={cc}) =", np.loadtxt(csv, delimiter=",", skiprows=1, ndmin=2)[:, 1].astype(int).tolist())
+            finally:
+                shutil.rmtree(tmp, ignore_errors=True)
         return 0
 
-    pending_cases = []
+    import multiprocessing as mp
+    pool = cf.ProcessPoolExecutor(max_workers=max(2, min(common.JOBS, 16) // 2), mp_context=mp.get_context("spawn"),
+                                  initializer=_worker_init, initargs=(tier,))
+    pending_cases, futures, ordinal = [], [], [0]
+
+    def submit(label, cases):
+        for c in cases:
+            ordinal[0] += 1
+            futures.append(pool.submit(_worker_replay, (c, label, w3j.get(c["l"], []), ordinal[0])))
 
     def on_result(label, r):
         chk.add_tlc(r, label)
@@ -597,23 +695,27 @@ def run(tier, replay=None):
                 if c.get("kind") == "w3j":
                     w3j[c["l"]] = c["terms"]
             for lab, cases in pending_cases:
-                for c in cases:
-                    replay_case(ctx, c, lab)
+                submit(lab, cases)
             pending_cases.clear()
         elif label.endswith("gen"):
             cases = [c for c in r.cases if c.get("kind") in ("ref", "xtal", "cfg")]
             if not cases:
                 raise common.MachineryError(f"{label}: no cases emitted")
             cases.sort(key=lambda c: json.dumps([c["l"], c.get("idx", c.get("name"))], sort_keys=True))
+            chk.extra.setdefault("cases_emitted", {})[label] = len(cases)
             if not w3j:
                 pending_cases.append((label, cases))
             else:
-                for c in cases:
-                    replay_case(ctx, c, label)
+                submit(label, cases)
 
-    run_plan(tlc_plan(tier), on_result)
-    chk.exhaustive = True
-    if lib["cal_neighbors"] is None:
-        chk.assumptions.append("freud not importable: Voronoi lists not exercised in direction B")
-    direction_b(ctx, 9 if tier == "quick" else 60)
+    try:
+        run_plan(tlc_plan(tier), on_result)
+        chk.exhaustive = True
+        if lib["cal_neighbors"] is None:
+            chk.assumptions.append("freud not importable: Voronoi lists not exercised in direction B")
+        direction_b(ctx, 15 if tier == "quick" else 60)       # runs in this process while the pool replays direction A
+        for fu in futures:
+            fu.result().merge_into(chk)
+    finally:
+        pool.shutdown(wait=True, cancel_futures=True)
     return chk.finish()
